@@ -570,9 +570,12 @@ def eval_case(drv: core.Driver, case: dict[str, Any], out: Out) -> None:
         if was_cached and (wrote or used_indep):
             out.viol.append(("reuse-wrote", "%s: %r was already suggested, yet the call wrote %d parameter(s) and asked the sampler %d time(s)" % (
                 tag, name, wrote, used_indep)))
-        if was_cached and d is not None and name in first_dist and type(first_dist[name]) is not type(d) and member(d, got) is not None:
+        # (an int handed over for a float parameter - the reused value of an int / categorical one - is judged as a number:
+        #  the property names a type only for integer parameters)
+        as_num = float(got) if isinstance(d, OD.FloatDistribution) and type(got) is int else got
+        if was_cached and d is not None and name in first_dist and type(first_dist[name]) is not type(d) and member(d, as_num) is not None:
             out.viol.append(("outside-domain", "%s returned %r, the value suggested earlier for a %s: %s" % (
-                tag, got, type(first_dist[name]).__name__, member(d, got))))
+                tag, got, type(first_dist[name]).__name__, member(d, as_num))))
         if not was_cached and name in fixed:
             want = fixed[name]
             if c["fn"] == "int" and isinstance(want, (int, float)) and not isinstance(want, bool) and math.isfinite(want):
